@@ -210,7 +210,8 @@ def encode_rows(rows, dbl):
     for r, col, to, ital_pac, segs in rows:
         ul = (r + len(segs)) % 2 == 1          # underlined variants of the italic codes on every other row
         p = C.pac(r, 0, italics=True, underline=ul) if ital_pac else C.pac(r, col)
-        if to and not ital_pac:
+        if to:
+            # (also after an italic preamble: the tab offset moves the cursor, the row stays italic)
             t = C.ctrl(f"TO{to}")
             ws.extend([p, t, p, t] if dbl else [p, t])
         else:
@@ -299,6 +300,15 @@ def bounded(ctx, b):
     singles += [[(15, 0, 0, False, [("text", "ab"), ("extended", ("a", code))])] for code in K.EXTENDED_CHARS]
     singles += [[(15, 0, 0, False, [("text", "AB"), ("extended_after_special", (sp, code)), ("text", "CD")])]
                 for sp in ("â", "è", "®") for code in list(K.EXTENDED_CHARS)[:6]]
+    # rows that fill the 32 columns of the screen exactly (alone, and as the first / last of two rows)
+    full = "A ROW OF EXACTLY THIRTY-TWO CHAR"
+    assert len(full) == 32
+    singles += [[(15, 0, 0, False, [("text", full)])], [(14, 0, 0, False, [("text", full)]), (15, 0, 0, False, [("text", "ok")])],
+                [(1, 0, 0, False, [("text", "ok")]), (2, 0, 0, False, [("text", full)])], [(15, 0, 1, False, [("text", full[:31])])],
+                [(15, 28, 0, False, [("text", "abcd")])], [(15, 28, 3, False, [("text", "a")])]]
+    # an italic preamble followed by a tab offset, on the first and on a continuation row
+    singles += [[(r1, 0, to1, i1, [("text", "one")]), (r1 + 1, c2, to2, i2, [("text", "two")])]
+                for r1 in (1, 14) for to1 in (0, 2) for i1 in (False, True) for c2 in (0, 4) for to2 in (0, 1, 3) for i2 in (False, True)]
     programs = [(rows, dbl, True) for rows in singles for dbl in (False, True)]
     for _ in range(n):
         # (a quarter of the streams end right after the End Of Caption: the screen is never erased)
